@@ -419,3 +419,112 @@ Qed.
 (* every node reaches itself *)
 Corollary reach_refl_lemma h a : wf_hist h = true -> a < nodes (run h) -> is_reachable (run h) a a = true.
 Proof. intros Hwf Ha. apply reach_correct_lemma; auto. apply rt_refl. Qed.
+
+(* ------------------------------------------------------------------ words never exceed 64 bits *)
+(* The model uses unbounded N words; the C++ uses int64.  Every word of every row stays below 2^64, so the
+   unbounded reading never leaves the machine word. *)
+Definition word_ok (w : N) : Prop := (w < 2 ^ 64)%N.
+Definition row_ok (r : list N) : Prop := Forall word_ok r.
+Definition rows_ok (rs : list (list N)) : Prop := Forall row_ok rs.
+
+Lemma Forall_in {A} (P : A -> Prop) l x : Forall P l -> In x l -> P x.
+Proof. intros H Hx. rewrite Forall_forall in H. apply H. exact Hx. Qed.
+
+Lemma In_firstn {A} n (l : list A) x : In x (firstn n l) -> In x l.
+Proof. rewrite <- (firstn_skipn n l) at 2. intro H. apply in_or_app. left. exact H. Qed.
+
+Lemma In_skipn {A} n (l : list A) x : In x (skipn n l) -> In x l.
+Proof. rewrite <- (firstn_skipn n l) at 2. intro H. apply in_or_app. right. exact H. Qed.
+
+Lemma word_ok_0 : word_ok 0%N.
+Proof. unfold word_ok. reflexivity. Qed.
+
+Lemma word_ok_node_bit i : word_ok (node_bit i).
+Proof.
+  unfold word_ok, node_bit. rewrite N.shiftl_1_l.
+  apply N.pow_lt_mono_r; [reflexivity|].
+  assert (H : i mod 64 < 64) by (apply Nat.mod_upper_bound; discriminate).
+  lia.
+Qed.
+
+Lemma word_ok_lor a b : word_ok a -> word_ok b -> word_ok (N.lor a b).
+Proof.
+  unfold word_ok. intros Ha Hb.
+  destruct (N.eq_dec (N.lor a b) 0) as [E|E]; [rewrite E; reflexivity|].
+  apply N.log2_lt_pow2; [lia|].
+  rewrite N.log2_lor.
+  destruct (N.eq_dec a 0) as [->|Ha0]; destruct (N.eq_dec b 0) as [->|Hb0].
+  - exfalso. apply E. reflexivity.
+  - rewrite N.max_r by (simpl; lia). apply N.log2_lt_pow2; lia.
+  - rewrite N.max_l by (simpl; lia). apply N.log2_lt_pow2; lia.
+  - apply N.max_lub_lt; apply N.log2_lt_pow2; lia.
+Qed.
+
+Lemma row_ok_nth r k : row_ok r -> word_ok (nth k r 0%N).
+Proof.
+  intro H. destruct (Nat.lt_ge_cases k (length r)) as [Hk|Hk].
+  - eapply Forall_in; [exact H|]. apply nth_In. exact Hk.
+  - rewrite nth_overflow by exact Hk. apply word_ok_0.
+Qed.
+
+Lemma rows_ok_nth rs k : rows_ok rs -> row_ok (nth k rs []).
+Proof.
+  intro H. destruct (Nat.lt_ge_cases k (length rs)) as [Hk|Hk].
+  - eapply Forall_in; [exact H|]. apply nth_In. exact Hk.
+  - rewrite nth_overflow by exact Hk. constructor.
+Qed.
+
+Lemma Forall_upd {A} (P : A -> Prop) i x l : Forall P l -> P x -> Forall P (upd i x l).
+Proof.
+  revert i; induction l as [|h t IH]; intros [|i] Hl Hx; simpl; auto;
+    inversion Hl; subst; constructor; auto.
+Qed.
+
+Lemma row_ok_vresize n r : row_ok r -> row_ok (vresize n 0%N r).
+Proof.
+  intro H. unfold vresize, row_ok. apply Forall_app. split.
+  - apply Forall_forall. intros x Hx. eapply Forall_in; [exact H|]. eapply In_firstn. exact Hx.
+  - apply Forall_forall. intros x Hx. apply repeat_spec in Hx. subst. apply word_ok_0.
+Qed.
+
+Lemma row_ok_lor_row sz r d : row_ok r -> row_ok d -> row_ok (lor_row sz r d).
+Proof.
+  intros Hr Hd. unfold lor_row, row_ok. apply Forall_app. split.
+  - apply Forall_forall. intros x Hx. apply in_map_iff in Hx. destruct Hx as [j [<- _]].
+    apply word_ok_lor; apply row_ok_nth; assumption.
+  - apply Forall_forall. intros x Hx. eapply Forall_in; [exact Hr|]. eapply In_skipn. exact Hx.
+Qed.
+
+Lemma rows_ok_conn_loop fuel : forall i sz adj src dst,
+  rows_ok adj -> rows_ok (conn_loop fuel i sz adj src dst).
+Proof.
+  induction fuel as [|f IH]; intros i sz adj src dst H; [exact H|].
+  cbn [conn_loop]. apply IH.
+  destruct (word_has (nth i adj []) (src / 64) (node_bit src)); [|exact H].
+  apply Forall_upd; [exact H|]. apply row_ok_lor_row; apply rows_ok_nth; exact H.
+Qed.
+
+Lemma rows_ok_step p o : rows_ok (rows (reach p)) -> rows_ok (rows (reach (step p o))).
+Proof.
+  intro H. destruct o as [|a b]; cbn [step].
+  - unfold new_node, add_node. cbn [reach rows].
+    set (adj2 := map (vresize _ 0%N) (vresize _ [] (rows (reach p)))).
+    assert (H2 : rows_ok adj2).
+    { unfold adj2, rows_ok. apply Forall_forall. intros r Hr. apply in_map_iff in Hr.
+      destruct Hr as [r0 [<- Hr0]]. apply row_ok_vresize.
+      unfold vresize in Hr0. apply in_app_or in Hr0. destruct Hr0 as [Hr0|Hr0].
+      - eapply Forall_in; [exact H|]. eapply In_firstn. exact Hr0.
+      - apply repeat_spec in Hr0. subst. constructor. }
+    apply Forall_upd; [exact H2|].
+    apply Forall_upd; [apply rows_ok_nth; exact H2|apply word_ok_node_bit].
+  - unfold connect_to. destruct (Nat.eqb a b); [exact H|].
+    destruct (existsb _ _); [exact H|]. cbn [reach rows add_connection].
+    apply rows_ok_conn_loop. exact H.
+Qed.
+
+Theorem words_bounded_lemma h : rows_ok (rows (reach (run h))).
+Proof.
+  unfold run. assert (G : forall p, rows_ok (rows (reach p)) -> rows_ok (rows (reach (fold_left step h p)))).
+  { induction h as [|o t IH]; intros p Hp; [exact Hp|]. cbn [fold_left]. apply IH. apply rows_ok_step. exact Hp. }
+  apply G. constructor.
+Qed.
